@@ -19,6 +19,8 @@ STRUCTS = {
     'w4': ('pub struct Wr<T, U>(pub core::marker::PhantomData<(T, U)>);', None, 'Wr<{T0}, {T1}>'),
     'w5': ("pub struct Wr<'a, T, const N: usize>(pub core::marker::PhantomData<&'a T>);", None, "Wr<{L0}, ({T0}, {T1}), {C}>"),
     'w6': ('pub struct Wr<T, U: ?Sized>(pub core::marker::PhantomData<T>, pub core::marker::PhantomData<U>);', None, 'Wr<{T0}, {T1}>'),
+    # the dispatched parameter itself may be unsized
+    'w7': ('pub struct Wr<T: ?Sized>(pub core::marker::PhantomData<Box<T>>);', None, 'Wr<{T0}>'),
 }
 
 
@@ -26,10 +28,10 @@ class ICase:
     pass
 
 
-def gen(rng, idx=None):
+def gen(rng, idx=None, structs=None):
     c = ICase()
     pk = gp.Picker(rng, idx)
-    sk = pk.choice(list(STRUCTS))
+    sk = pk.choice(structs or list(STRUCTS))
     decl, _, self_tmpl = STRUCTS[sk]
     tr = rng.choice(['D', 'D2'])
     consts = rng.sample(['12', '14'], rng.choice([1, 2])) if '{C}' in self_tmpl else [None]
@@ -51,9 +53,6 @@ def gen(rng, idx=None):
                 bounds.append(('{T1}', 'D', {}, rng.choice(['inline', 'where'])))
             b = gp.Block({x: slots[x] for x in order}, None, self_fmt, bounds, 'b%d' % len(blocks))
             if sk == 'w6':
-                # the struct's second parameter may be unsized: some blocks relax it (inline / where)
-                r = rng.random()
-                b.relaxed = {'T1': 'inline'} if r < 0.4 else {'T1': 'where'} if r < 0.8 else {}
                 b.bounds = [bd for bd in b.bounds if bd[0] != '{T1}']
             blocks.append(b)
         if generic_const:
@@ -90,6 +89,15 @@ def gen(rng, idx=None):
     rng.shuffle(blocks)
     for i, b in enumerate(blocks):
         b.tag = 'b%d' % i
+    if sk in ('w6', 'w7'):
+        # the struct's last parameter may be unsized: which blocks relax it (inline / where) is
+        # planned by position, so that "only a later block relaxes" and "only the first" both occur
+        slot = 'T1' if sk == 'w6' else 'T0'
+        plan = pk.choice(['not_first', 'random', 'first_only', 'all', 'last_only'])
+        for i, b in enumerate(blocks):
+            on = {'not_first': i > 0, 'first_only': i == 0, 'all': True, 'last_only': i == len(blocks) - 1,
+                  'random': rng.random() < 0.6}[plan]
+            b.relaxed = {slot: rng.choice(['inline', 'where'])} if on else {}
     c.blocks = blocks
     c.decl = decl
     # probes: instantiate
@@ -104,6 +112,8 @@ def gen(rng, idx=None):
     c.probes = probes[:8]
     if sk == 'w6':
         c.probes = probes[:5] + [self_tmpl.format(T0=a, T1=u) for a in atoms[:2] for u in ('str', '[u8]')]
+    if sk == 'w7':
+        c.probes = probes[:5] + [self_tmpl.format(T0=u) for u in ('str', '[u8]')]
     if nested_self:
         c.probes = c.probes[:6] + [nested_self.format(T0=a, T1=b2) for a in atoms[:2] for b2 in atoms[:1]]
         if sk == 'w4' and nested2 and nested2 != nested_self:
@@ -115,6 +125,9 @@ def gen(rng, idx=None):
         if nested_self:
             world[('Vec<%s>' % a, tr)] = {x: rng.choice(gp.GROUPS + ['GD']) for x in gp.TRAITS[tr]} if rng.random() < 0.9 else None
             world[('Option<%s>' % a, tr)] = {x: rng.choice(gp.GROUPS + ['GD']) for x in gp.TRAITS[tr]} if rng.random() < 0.9 else None
+    if sk == 'w7':
+        for u in ('str', '[u8]'):
+            world[(u, tr)] = {x: rng.choice([bd[2].get('G') for b in blocks for bd in b.bounds if bd[2].get('G')] + gp.GROUPS[:1]) for x in gp.TRAITS[tr]} if rng.random() < 0.9 else None
     c.world = world
     return c
 
